@@ -192,6 +192,7 @@ LXH("lx_str_expr_quote_plain_k3", SEP, "thorough", "plain literal: '\"' + <= 2 c
 LXH("lx_str_expr_quote_expr_k3", SEP, "thorough", "genuine string expression: '\"' + <= 2 code points (closing quote with suffix, or escaped quote first)", SE, 3600, stubs=SES + XID, fixed='"', contexts=["str_expr"], mem=20)
 LXH("lx_str_expr_percent_k3", COMMON + ["C06", "C07", "C10"], "thorough", "plain literal: '%' (no name start after it) + <= 2 code points", SE, 3600, stubs=SES + XID, fixed="%", contexts=["quote"], mem=20)
 LXH("lx_str_expr_amp_k3", COMMON + ["C06", "C07", "C10"], "thorough", "genuine string expression: '&' run that is no macro trigger, <= 3 code points", SE, 3600, stubs=SES + XID, fixed="&", contexts=["str_expr"], mem=20)
+LXH("lx_str_expr_percent_ascii_n3", COMMON + ["C06", "C07", "C10"], "quick", "plain literal: '%' + exactly 2 ASCII characters at constant byte positions (the dispatcher-consumed '%' belongs to the text and payload)", SE, 2400, stubs=SES + XID, fixed="%", contexts=["quote"], mem=16)
 LXH("lx_unterminated_str_direct", ["C01", "C02", "C03", "C04", "C06", "C07", "C09", "C10"], "quick", "end of input; payload handed over by the text scanner symbolic; look-behind (start token last / another token on any channel) symbolic", ["Lexer::handle_unterminated_str_expr", "Lexer::update_last_token"], 300, contexts=["str_expr"], mem=8)
 HARNESSES[-1]["decoder"] = None
 LXH("lx_double_quoted_literal_direct", ["C01", "C02", "C03", "C04", "C06", "C07", "C10", "C11", "C16"], "quick", "closing quote + <= 2 code points of suffix; payload handed over symbolic", ["Lexer::lex_double_quoted_literal", "Lexer::resolve_string_literal_ending", "Lexer::update_last_token"], 300, stubs=HEXS, fixed='"', contexts=["quote"], mem=8)
@@ -255,7 +256,7 @@ COST = {
     "buf_bulk_vs_accessors_n3": 200, "buf_accessors_total_n1": 20, "buf_accessors_total_n2": 20, "buf_accessors_total_n3": 22, "twin_buf_bulk_vs_accessors": 25,
     "buf_line_col_vs_text_k3": 22, "buf_line_col_vs_text_k5": 26, "buf_into_detached": 25, "buf_checkpoint_rollback": 40,
     "lx_ws_k2": 40, "lx_ws_k3": 45, "lx_cstyle_comment_k4": 60, "lx_cstyle_comment_k5": 84, "lx_macro_comment_k4": 39, "lx_macro_comment_k5": 55, "lx_single_quoted_k3": 103, "lx_single_quoted_k4": 162, "cur_advance_by_k3": 63, "cur_advance_k3": 45, "cur_eat_char_k3": 40, "cur_eat_while_k3": 37, "cur_peek_k3": 40, "lx_single_quoted_esc_k5": 161,
-    "lx_unrestricted_k2": 146, "lx_str_call_scan_k2": 456, "lx_stat_opts_string_k2": 134, "lx_arg_value_scan_k2": 259, "lx_finalize_": 280, "twin_lx_finalize": 60,
+    "lx_unrestricted_k2": 146, "lx_str_call_scan_k2": 456, "lx_str_expr_percent_ascii_n3": 545, "lx_stat_opts_string_k2": 134, "lx_arg_value_scan_k2": 259, "lx_finalize_": 280, "twin_lx_finalize": 60,
     "lx_token_expect_symbol": 100, "lx_token_expect_semi": 80, "lx_token_ws_only": 127, "lx_token_make_checkpoint": 87, "lx_token_macro_def_name": 100,
     "lx_preload_default": 126, "lx_preload_in_arg_value": 120, "lx_maybe_args_or_label": 78, "lx_label_sep": 65, "lx_numeric_literal": 50,
     "lx_new_bom": 30, "lx_semi_text_arm_semi": 35, "lx_stat_opts_arm_assign": 35, "lx_eval_string_k2": 600, "lx_default_star": 78, "lx_default_symbol": 103,
@@ -285,7 +286,7 @@ PRIMARY = [
     ("buf_line_col_vs_text", ["C04", "C17", "C02", "C03"]), ("buf_into_detached", ["C02", "C03", "C04"]), ("buf_checkpoint_rollback", ["C02", "C04", "C07"]),
     ("lx_ws_k2", ["C03"]), ("lx_ws_k3", ["C04", "C06", "C03", "C11"]), ("lx_cstyle_comment_k4", ["C03"]), ("lx_cstyle_comment_k5", ["C04", "C06", "C11"]), ("lx_macro_comment_k4", ["C03"]), ("lx_macro_comment_k5", ["C04", "C06"]),
     ("lx_single_quoted_k3", ["C04", "C11"]), ("lx_single_quoted_k4", ["C07", "C06", "C16"]), ("lx_single_quoted_esc_k5", ["C07", "C16"]),
-    ("lx_unrestricted_k2", ["C13", "C06"]), ("lx_str_call_scan_k2", ["C07", "C13"]), ("lx_stat_opts_string_k2", ["C13", "C14"]), ("lx_arg_value_scan_k2", ["C13", "C04"]),
+    ("lx_unrestricted_k2", ["C13", "C06"]), ("lx_str_call_scan_k2", ["C07", "C13"]), ("lx_str_expr_percent_ascii_n3", ["C07"]), ("lx_stat_opts_string_k2", ["C13", "C14"]), ("lx_arg_value_scan_k2", ["C13", "C04"]),
     ("lx_finalize_", ["C10", "C14"]), ("lx_finalize_nested_str_p0", ["C10", "C14", "C01", "C09"]), ("lx_finalize_if_paren_p1", ["C10", "C14", "C02", "C09"]),
     ("lx_finalize_scan_p1", ["C10", "C14", "C01", "C02"]), ("twin_lx_finalize", ["C10", "C14"]),
     ("lx_token_expect_symbol", ["C14", "C09", "C06"]), ("lx_token_expect_semi", ["C14", "C09"]), ("lx_token_ws_only", ["C13", "C14", "C01"]),
